@@ -64,8 +64,15 @@ def script_for(case):
     if case.get("shutdown"):
         args.append(repr("shutdown"))
     deco = "@time_trigger" if case.get("noargs") else "@time_trigger(%s)" % ", ".join(args)
-    return f"""
-{deco}
+    above, below = [], []
+    if case.get("state_hold") is not None:       # a second trigger of the same function, with a hold period
+        above.append("@state_trigger(\"pyscript.pv_hvar == '1'\", state_hold=%r)" % case["state_hold"])
+    if case.get("event"):
+        below.append('@event_trigger("c06_ev")')
+    if case.get("mqtt"):                          # a sibling decorator whose stop can be made to fail
+        (above if case["mqtt"]["pos"] == "above" else below).append('@mqtt_trigger("pv/c06")')
+    lines = above + [deco] + below
+    return "\n" + "\n".join(lines) + """
 def pv_func(trigger_type=None, trigger_time=None, **kw):
     event.fire("pv_run", ty=str(trigger_type), tt=str(trigger_time))
 """
@@ -98,20 +105,59 @@ async def scenario(case, tz):
     try:
         env = DstEnv(case["base_utc"], tz, ppm=case.get("ppm", 0), steps=case.get("steps", ()), files={}, legacy=case["legacy"])
         holder["env"] = env
+        subs = {"sub": 0, "unsub": 0}
+
+        async def fake_subscribe(hass, topic, msg_callback, qos=0, encoding="utf-8", **kwargs):
+            subs["sub"] += 1
+
+            def remove():
+                subs["unsub"] += 1
+                if case["mqtt"].get("fault"):
+                    raise RuntimeError(f"MQTT client is not available: cannot unsubscribe {topic}")
+
+            return remove
+
+        import contextlib
+        from unittest.mock import patch
+
+        mq = patch("homeassistant.components.mqtt.async_subscribe", fake_subscribe) if case.get("mqtt") else contextlib.nullcontext()
+        reload_exc = None
         async with env:
+          with mq:
             env.hass.config.latitude, env.hass.config.longitude = NYC
+            env.hass.states.async_set("pyscript.pv_hvar", "0")
             await env.advance(case.get("lead", 1.0))
             def_utc = env.utc_now_us()
             env.write("pv_case.py", script_for(case))
             await env.reload()
-            await env.advance(case["horizon"])
+            done = 0.0
+            for at, op, val in sorted(case.get("history", [])):      # state changes / events while the trigger waits
+                if at > done:
+                    await env.advance(at - done)
+                    done = at
+                if op == "set":
+                    env.hass.states.async_set("pyscript.pv_hvar", val)
+                else:
+                    env.hass.bus.async_fire("c06_ev", {"n": val})
+                await env.settle()
+            await env.advance(case["horizon"] - done)
             rm_utc = env.utc_now_us()
             env.remove("pv_case.py")
-            await env.reload()
-            await env.advance(2.0)
+            try:
+                await env.reload()
+            except Exception as exc:  # pylint: disable=broad-except
+                reload_exc = repr(exc)
+            await env.advance(case.get("tail", 2.0))
+            end_utc = env.utc_now_us()
             runs = []
+            other = []
             base = case["base_utc"]
-            for vt, _ty, data in env.events:
+            for vt, ety, data in env.events:
+                if ety != "pv_run":
+                    continue
+                if data.get("ty") in ("state", "event", "mqtt"):    # runs of the sibling triggers (properties C05/C08)
+                    other.append([base + round(vt * 1e6), data.get("ty")])
+                    continue
                 tt = data.get("tt")
                 if tt in ("startup", "shutdown"):
                     k = tt
@@ -124,7 +170,7 @@ async def scenario(case, tz):
             errs = [r for r in env.log.records if r[1] in ("ERROR", "WARNING")]
             return {"def_utc": def_utc, "remove_utc": rm_utc, "runs": runs, "calls": calls, "sun": rec.table,
                     "base": case["base_utc"], "ppm": case.get("ppm", 0), "steps": env.abs_steps(),
-                    "walls": [env.wall_us(u) for u, _k, _t in runs],
+                    "walls": [env.wall_us(u) for u, _k, _t in runs], "other_runs": other, "subs": subs, "reload_exc": reload_exc, "end_utc": end_utc,
                     "errors": [list(e) for e in errs[:5]]}
     finally:
         TrigTime.timer_trigger_next = orig
